@@ -9,6 +9,7 @@ import (
 
 	"github.com/safing/portbase/database"
 	"github.com/safing/portbase/database/query"
+	"github.com/safing/portbase/database/record"
 
 	"verifharness/internal/vlib"
 )
@@ -128,6 +129,7 @@ func (wr *writerRun) do(r *run, op *OpSpec) *opRec {
 	}
 	var fn func() error
 	after := func() {}
+	var echo, echoOf *Rec
 	switch op.Kind {
 	case "put", "putnew", "push", "putdel":
 		wr.counter++
@@ -148,6 +150,12 @@ func (wr *writerRun) do(r *run, op *OpSpec) *opRec {
 			ns.crown = ns.crown || wr.spec.Iface.Crown
 		}
 		setAttrs(ns)
+		if r.w.echoFor != nil && (op.Kind == "put" || op.Kind == "putnew") {
+			echo = newRec(r.w.db, fmt.Sprintf("c/echo/k%d-%d", wr.spec.ID, wr.counter), token+"e", op.Score, op.Tag)
+			echo.UpdateMeta()
+			r.w.echoFor.Store(record.Record(nr), echo)
+			echoOf = nr
+		}
 		switch op.Kind {
 		case "put":
 			fn = func() error { return wr.iface.Put(nr) }
@@ -223,6 +231,13 @@ func (wr *writerRun) do(r *run, op *OpSpec) *opRec {
 	rec.OK = err == nil && pnc == ""
 	if rec.OK {
 		after()
+	}
+	if echo != nil {
+		// the update the storage pushed from inside this Put: a write of its own,
+		// somewhere between this operation's call and return
+		_, pending := r.w.echoFor.LoadAndDelete(record.Record(echoOf))
+		wr.ops = append(wr.ops, &opRec{W: wr.spec.ID, Idx: len(wr.ops), Kind: "echo", Key: echo.DatabaseKey(), Call: rec.Call, Ret: rec.Ret,
+			OK: !pending, Token: echo.Token, Score: echo.Score, Tag: echo.Tag, Model: true})
 	}
 	if pnc != "" {
 		if wr.tainted == nil {
